@@ -57,7 +57,7 @@ def deep_unary_chain(rng):
 
 
 def gen_case(rng, spec):
-    if rng.random() < 0.001:
+    if rng.random() < 0.0015:
         return deep_unary_chain(rng)
     return xform.gen_case(rng, spec)
 
